@@ -19,13 +19,6 @@ Definition to_wavefront (w : pwf S) (t : wf_ptype) : result (wavefront S) :=
       end
   end.
 
-(* Wavefront(...) * P1 * ... * Pk *)
-Fixpoint chain_multiply (ps : list (plane S)) (w : pwf S) : result (pwf S) :=
-  match ps with
-  | [] => Ok w
-  | P :: r => rbind (plane_multiply P w) (chain_multiply r)
-  end.
-
 (* lentil.propagate_dft(Wavefront(...) * P1 * ... * Pk, pixelscale, shape, prop_shape, oversample) for
    pupil planes and fields without tilt *)
 Definition chain_propagate (sq : Qc -> S) (ps : list (plane S)) (w : pwf S) (dur duc : Qc)
@@ -53,5 +46,5 @@ Definition chain_propagate_tilted (sq : Qc -> S) (ps : list (plane S)) (w : pwf 
   rbind (to_wavefront w1 PtPupil) (fun w2 =>
   propagate_dft sq (ang_shift (wfocal w2) dur duc os) w2 dur duc shape pshape os None)).
 End Segment.
-Arguments to_wavefront {S}. Arguments chain_multiply {S}. Arguments chain_propagate {S}.
+Arguments to_wavefront {S}. Arguments chain_propagate {S}.
 Arguments ang_shift {S}. Arguments chain_propagate_tilted {S}.
